@@ -40,9 +40,9 @@ def plan(tier):
     return {
         "level": "fault_enumeration",
         "shards": 16,
-        "budget_s": 50 if q else 900,
+        "budget_s": 50 if q else 700,
         "timeout_s": 420 if q else 2400,
-        "min_nontrivial": 80 if q else 2000,
+        "min_nontrivial": 30 if q else 1000,
         "required_counters": ["oracle_no_deadlock", "oracle_recoveries_returned", "oracle_once_per_loss",
                               "barrier_released", "concurrent_recoveries"],
         "rule": "case = (program, set of simultaneously failing siblings, perturbation seed); programs: scatter n=2..8 with "
@@ -115,12 +115,13 @@ def run_case(sh: Shard, case: dict) -> None:
     key = (prog["shape"], C.fault_key(faults), seed)
     released = all(b[0] for b in res.barrier_open.values()) if res.barrier_open else False
     calls = [c for v in res.recover_calls.values() for c in v]
+    calls = calls[:200]
     overlap = sum(1 for a in calls for b in calls if a is not b and a["start"] < b["start"] < (a["end"] or 1 << 60))
     sh.case(key, nontrivial=released and overlap > 0)
     if released:
         sh.count("barrier_released")
     if overlap:
-        sh.count("concurrent_recoveries", overlap)
+        sh.count("concurrent_recoveries", min(overlap, 100))
     pk = digest((prog["shape"], C.fault_key(faults)))
     _ORDERS.setdefault(pk, set()).add(digest([(e["ev"], e.get("job"), e.get("wf")) for e in res.events]))
     if len(sh.samples) < 2 and sh.shard in (6, 7) and overlap:
@@ -155,7 +156,9 @@ def run_case(sh: Shard, case: dict) -> None:
         sh.violation(None, f"executor.run() returned ({res.status}) while recover() calls {open_calls} / recovery executors "
                            f"{open_exec} never returned [shape {prog['shape']}]", witness())
     if res.status != "ok" or res.outputs != [R.denote(prog)]:
-        if C.is_concurrent_recovery_drops_job(prog, res):
+        if C.is_scatter_join_mispaired(prog, res):
+            mech = "C19/scatter-join-mispaired-after-recovery"
+        elif C.is_concurrent_recovery_drops_job(prog, res):
             mech = "C19/concurrent-recovery-drops-job"
         elif C.is_runaway_nested_recovery(res, LIMIT):
             mech = "C19/runaway-nested-recovery"
@@ -187,7 +190,7 @@ def run_shard(sh: Shard) -> None:
     for i, case in enumerate(cases):
         if not sh.mine(i):
             continue
-        if (time.time() - t_start > sh.plan["budget_s"]) or sh.time_left() < -60:
+        if (time.time() - t_start > sh.plan["budget_s"]) or sh.time_left() < -150:
             break
         run_case(sh, case)
         done += 1
